@@ -79,6 +79,21 @@ REQUIRED_TAGS = ['form=integrate', 'integrate:open', 'integrate:nonopen', 'integ
                  'call=array1', 'repind:insert', 'repind:raise', 'repind:split', 'repind:reverse', 'repind:swap', 'repind:rigid',
                  'repind:mirror', 'repind:scale', 'analytic:circle', 'analytic:sphere', 'analytic:cylinder', 'analytic:torus',
                  'pardim=1', 'pardim=2', 'pardim=3']
+ASSUMPTIONS = [
+    'Gauss-Legendre rules enter the theorems as a hypothesis (RuleExact: exact for monomials up to degree 2m-1); it is '
+    'PROVED for m = 1, 2, 3 (ruleExact_midpoint/gauss2/gauss3, the latter two over any field with the needed square root) '
+    'and assumed for m >= 4; the executable model is run with the float nodes/weights numpy returns, as exact rationals',
+    'model<->spec theorems about Basis.integrate / Obj.center assume Basis.Valid, parameters that are exact for the tolerance '
+    '(Basis.ExactAt: a knot or at least tol away from every knot; cf. C01_evaluate_snap) and, over R, interior knot '
+    'multiplicities <= order (Basis.InteriorMultLE; the constructor does not enforce it)',
+    'Obj.center is linked to the specification by theorem for non-rational curves (non-periodic and periodic bases), '
+    'non-rational surfaces on non-periodic bases and (projective formula) rational curves; volumes, rational surfaces, '
+    'surfaces with periodic directions, and lengthData/areaData/volume/curvature/torsion/Frenet are tied to the code by the '
+    'correspondence run only',
+    'quadrature-ERROR clauses (insertion/elevation/splitting with non-polynomial integrands, convergence to analytic '
+    'values) are covered by the oracle only: element-wise error budgets against a high-order float reference computed with '
+    'the real derivative() (property C03), regular parametrisations only (speed/Jacobian bounded away from 0, one sign)',
+]
 KNOWN_LABELS = ['torsion-scalar-branch-uses-acceleration', 'rational-curve-one-element-list-derivative-squeezed',
                 'integrate-periodic-collapse-single-fold']
 
